@@ -55,6 +55,8 @@ def run(ctx):
   rule_consist(ctx)
   rule_minsize(ctx)
   rule_cusum(ctx)
+  rule_formula(ctx)
+  ctx.expect("R-C12-FORMULA", 20, "statistic formulas of ten tests")
   ctx.expect("R-C12-TABLES", 60, "17 longest-run + 6 + 33 rank + universal + 11 min_n + 14 linear complexity + 3 excursions")
   ctx.expect("R-C12-MINSIZE", 9, "nine InsufficientDataError guards")
   ctx.expect("R-C12-CUSUM", 2, "two extrema")
@@ -372,3 +374,271 @@ def rule_cusum(ctx):
       probs.append("no assignment found")
     ctx.record(R, f.where, "%s %s 0 at the use" % (var, want_sign), not probs, "; ".join(probs) or
                "initialised 0, only raised (lowered) under a strict comparison, fall-back clamped with 0: the extrema range over a set containing S_0")
+
+
+# ------------------------------------------------------------------ FORMULA (term shape of the statistics, modulo field axioms)
+from pcstatic import ratfun
+
+
+def _lit(s):
+  return P("lit", s)
+
+
+def _call(name, *a):
+  return sym.mk("call", _lit(name), *a)
+
+
+def _td(a, b):
+  return sym.mk("tdiv", as_poly(a) if not isinstance(a, Poly) else a, as_poly(b) if not isinstance(b, Poly) else b)
+
+
+def _c(x):
+  return Poly.const(x)
+
+
+def _fl(s):
+  return P("lit", s)   # decimal literal as written, e.g. '0.7'
+
+
+def cmp_terms(ctx, R, where, construct, got, want, text):
+  if got is None:
+    ctx.record(R, where, construct, None, "value not found")
+    return
+  ok, d = ratfun.equal_terms(got, want)
+  ctx.record(R, where, construct, ok, text if ok else "differs from the SP 800-22 formula (%s): %s" % (text, d))
+
+
+def last_assign(w, name, in_loop=None):
+  out = None
+  for e in w.events:
+    if e.kind in ("assign", "augassign") and e.data["name"] == name:
+      if in_loop is None or bool(e.state.tags) == in_loop:
+        out = e
+  return out
+
+
+def rule_formula(ctx):
+  R = "R-C12-FORMULA"
+  repo = ctx.repo
+  U = "randomness_tests.util:"
+  bits, n = P("param", "bits"), P("param", "n")
+  sqrt = lambda x: sym.mk("math.sqrt", x)
+  erfc = lambda x: sym.mk("math.erfc", x)
+  igamc = lambda a, b: _call(U + "Igamc", a, b)
+  # ---- Frequency
+  f = repo.func(MOD, "Frequency")
+  w = sym.Walker(repo, f)
+  w.run()
+  ret = [e.data["value"] for e in w.events if e.kind == "return" and e.node is not None]
+  ones = _call(U + "BitCount", bits)
+  want = erfc(_td(_td(sym.mk("abs", ones * 2 - n), sqrt(n)), sqrt(_c(2))))
+  cmp_terms(ctx, R, f.where, "p = erfc(|2*ones - n| / sqrt(n) / sqrt(2))", as_poly(ret[0]) if ret else None, want, "2.1.4")
+  # ---- Runs
+  f = repo.func(MOD, "Runs")
+  w = sym.Walker(repo, f)
+  w.run()
+  ret = [e.data["value"] for e in w.events if e.kind == "return" and e.node is not None]
+  pi = _td(ones, n)
+  V = _call(U + "Runs", bits, n)
+  want = erfc(_td(sym.mk("abs", V - n * 2 * pi * (1 - pi)), sqrt(n * 2) * 2 * pi * (1 - pi)))
+  cmp_terms(ctx, R, f.where, "p = erfc(|V - 2n pi(1-pi)| / (2 sqrt(2n) pi(1-pi)))", as_poly(ret[0]) if ret else None, want, "2.3.4")
+  # ---- BlockFrequencyImpl
+  f = repo.func(MOD, "BlockFrequencyImpl")
+  w = sym.Walker(repo, f)
+  w.run()
+  ret = [e.data["value"] for e in w.events if e.kind == "return" and e.node is not None]
+  blocks, m = P("param", "blocks"), P("param", "m")
+  bv = Atom("bv", "s0")
+  pis = Poly.atom(Atom("map", _td(_call(U + "BitCount", sym.mk("idx", blocks, Poly.atom(bv))), m), bv, blocks))
+  bv2 = Atom("bv", "s1")
+  x = sym.mk("idx", pis, Poly.atom(bv2))
+  chi = m * 4 * sym.mk("sum", Poly.atom(Atom("map", (x - _td(_c(1), _c(2))) ** 2, bv2, pis)))
+  want = igamc(_td(sym.mk("len", blocks), _c(2)), _td(chi, _c(2)))
+  cmp_terms(ctx, R, f.where, "p = igamc(N/2, 4M sum(pi_i - 1/2)^2 / 2)", as_poly(ret[0]) if ret else None, want, "2.2.4")
+  # ---- ChiSquare
+  f = repo.func(MOD, "ChiSquare")
+  w = sym.Walker(repo, f)
+  w.run()
+  count, prob, k = P("param", "count"), P("param", "prob"), P("param", "k")
+  for e in [e for e in w.events if e.kind == "return" and e.node is not None]:
+    kk = e.state.env.get("k")
+    kv = as_poly(kk)
+    tot = sym.mk("sum", count)
+    z = sym.mk("zip", count, prob)
+    bv = Atom("bv", "s2")
+    c_ = sym.mk("idx", count, Poly.atom(bv))
+    p_ = sym.mk("idx", prob, Poly.atom(bv))
+    chi = sym.mk("sum", Poly.atom(Atom("map", _td((c_ - tot * p_) ** 2, tot * p_), bv, z)))
+    want = igamc(_td(kv, _c(2)), _td(chi, _c(2)))
+    dflt = any(f_[0] == "cmp" and f_[1] == "Is" and as_poly(f_[2]) == k for f_ in e.facts)
+    if dflt and kv != sym.mk("len", count) - 1:
+      ctx.violation(R, f.where, "default degrees of freedom", "k defaults to %r, expected len(count) - 1" % (kv,))
+    cmp_terms(ctx, R, f.where, "p = igamc(k/2, sum (c - n p)^2/(n p) / 2)%s" % (" [k default]" if dflt else ""), as_poly(e.data["value"]), want, "chi-square")
+  # ---- NonOverlappingTemplateMatchingImpl: mean and variance
+  f = repo.func(MOD, "NonOverlappingTemplateMatchingImpl")
+  w = sym.Walker(repo, f)
+  w.run()
+  m = P("param", "m")
+  two_m = sym.mk("pow", _c(2), m)
+  e = last_assign(w, "mean")
+  cmp_terms(ctx, R, f.where, "mean = (n - m + 1) / 2^m", as_poly(e.data["value"]) if e else None, _td(n - m + 1, two_m), "2.7.4")
+  e = last_assign(w, "variance")
+  cmp_terms(ctx, R, f.where, "variance = n (1/2^m - (2m - 1)/2^(2m))", as_poly(e.data["value"]) if e else None,
+            n * (_td(_c(1), two_m) - _td(m * 2 - 1, sym.mk("pow", _c(2), m * 2))), "2.7.4")
+  e = last_assign(w, "p_value", in_loop=True)
+  if e is not None:
+    obs = as_poly(e.state.env.get("obs"))
+    cmp_terms(ctx, R, f.where, "p = igamc(N/2, chi2/2)", as_poly(e.data["value"]), igamc(_td(sym.mk("len", P("param", "blocks")), _c(2)), _td(obs, _c(2))), "2.7.4")
+  # ---- UniversalDistribution
+  f = repo.func(MOD, "UniversalDistribution")
+  w = sym.Walker(repo, f)
+  w.run()
+  L, K = P("param", "block_size"), P("param", "k")
+  e = last_assign(w, "c")
+  want = _fl("0.7") - _td(_fl("0.8"), L) + (_c(4) + _td(_c(32), L)) * _td(sym.mk("pow", K, _td(_c(-3), L)), _c(15))
+  cmp_terms(ctx, R, f.where, "c = 0.7 - 0.8/L + (4 + 32/L) K^(-3/L) / 15", as_poly(e.data["value"]) if e else None, want, "2.9.4")
+  e = last_assign(w, "std")
+  if e is not None:
+    cv = as_poly(e.state.env.get("c"))
+    var = as_poly(e.state.env.get("variance"))
+    cmp_terms(ctx, R, f.where, "sigma = c sqrt(variance / K)", as_poly(e.data["value"]), cv * sqrt(_td(var, K)), "2.9.4")
+  # ---- Serial
+  f = repo.func(MOD, "Serial")
+  w = sym.Walker(repo, f)
+  w.run()
+  n_chk = 0
+  for e in w.events:
+    if e.kind == "assign" and e.data["name"] in ("p_value1", "p_value2") and e.state.tags:
+      mm = as_poly(e.state.env.get("m"))
+      v = as_poly(e.state.env.get("v"))
+      vi = lambda j: sym.mk("idx", v, j)
+      if e.data["name"] == "p_value1":
+        want = igamc(sym.mk("pow", _c(2), mm - 2), _td(vi(mm) - vi(mm - 1), _c(2)))
+        txt = "p1 = igamc(2^(m-2), (psi_m - psi_{m-1}) / 2)"
+      else:
+        want = igamc(sym.mk("pow", _c(2), mm - 3), _td(vi(mm) - vi(mm - 1) * 2 + vi(mm - 2), _c(2)))
+        txt = "p2 = igamc(2^(m-3), (psi_m - 2 psi_{m-1} + psi_{m-2}) / 2)"
+      if n_chk < 2:
+        cmp_terms(ctx, R, f.where, txt, as_poly(e.data["value"]), want, "2.11.4")
+      n_chk += 1
+  st = [e for e in w.events if e.kind == "store" and isinstance(e.data["target"].value, ast.Name) and e.data["target"].value.id == "v"]
+  if st:
+    e = st[0]
+    mm = as_poly(e.data["index"])
+    cnt = as_poly(e.state.env.get("count"))
+    bv = Atom("bv", "s3")
+    sumc = sym.mk("sum", Poly.atom(Atom("map", sym.mk("idx", cnt, Poly.atom(bv)) ** 2, bv, cnt)))
+    cmp_terms(ctx, R, f.where, "psi^2_m = (2^m / n) sum c^2 - n", as_poly(e.data["value"]), _td(sumc * sym.mk("pow", _c(2), mm), n) - n, "2.11.4")
+  # ---- ApproximateEntropy
+  f = repo.func(MOD, "ApproximateEntropy")
+  w = sym.Walker(repo, f)
+  w.run()
+  done = False
+  for e in w.events:
+    if e.kind == "assign" and e.data["name"] == "p_value" and e.state.tags and not done:
+      done = True
+      mm = as_poly(e.state.env.get("m"))
+      phi = as_poly(e.state.env.get("phi"))
+      ap = sym.mk("idx", phi, mm) - sym.mk("idx", phi, mm + 1)
+      chi = n * 2 * (sym.mk("math.log", _c(2)) - ap)
+      cmp_terms(ctx, R, f.where, "p = igamc(2^(m-1), n (ln 2 - ApEn(m)))", as_poly(e.data["value"]), igamc(sym.mk("pow", _c(2), mm - 1), _td(chi, _c(2))), "2.12.4")
+  # ---- CumulativeSumsPValue
+  f = repo.func(MOD, "CumulativeSumsPValue")
+  w = sym.Walker(repo, f)
+  w.run()
+  z = P("param", "z")
+  t = _td(z, sqrt(n * 2))
+  erf = lambda x: sym.mk("math.erf", x)
+  loops = sorted(w.loop_info.values(), key=lambda i: i["node"].lineno)
+  specs = [
+      (_td(_td(-n, z) + 1, _c(4)), _td(_td(n, z) - 1, _c(4)), lambda k: erf((k * 4 - 1) * t) - erf((k * 4 + 1) * t), "sum_k [Phi((4k+1)z/sqrt n) - Phi((4k-1)z/sqrt n)], k = ceil((-n/z+1)/4) .. floor((n/z-1)/4)"),
+      (_td(_td(-n, z) - 3, _c(4)), _td(_td(n, z) - 1, _c(4)), lambda k: erf((k * 4 + 3) * t) - erf((k * 4 + 1) * t), "sum_k [Phi((4k+3)z/sqrt n) - Phi((4k+1)z/sqrt n)], k = ceil((-n/z-3)/4) .. floor((n/z-1)/4)"),
+  ]
+  if len(loops) != 2:
+    ctx.record(R, f.where, "two series", None, "expected two summation loops, found %d" % len(loops))
+  else:
+    for info, (mink, maxk, term, txt) in zip(loops, specs):
+      node = info["node"]
+      probs = []
+      for vis in info.get("visits", []):
+        head, pre = vis["head"], vis["pre"]
+        if isinstance(node, ast.While):
+          kh = as_poly(head.env.get("k"))
+          k0 = as_poly(pre.env.get("k"))
+          ok0, _ = ratfun.equal_terms(k0, sym.mk("math.ceil", mink))
+          if not ok0:
+            probs.append("summation does not start at ceil(mink)")
+          c = w.cond(node.test, head)
+          mk_ = as_poly(head.env.get("maxk"))
+          okm, _ = ratfun.equal_terms(mk_, maxk)
+          if not okm:
+            probs.append("upper limit is not (n/z - 1)/4")
+          okc, dc = regions.equivalent_dnf([[(c, True)]], lambda v: v[kh] <= v[mk_], main=kh, extra_atoms=[mk_.as_atom()] if mk_.as_atom() is not None else [])
+          if not okc:
+            probs.append("loop does not run while k <= maxk (the last term k = maxk is part of the series): %s" % dc)
+        else:
+          it = as_poly(vis["iter"]).as_atom()
+          kh = vis["k"]
+          if it is None or it.kind != "range" or len(it.args) != 2:
+            probs.append("summation range not recognised")
+          else:
+            a0, b0 = it.args
+            kh = a0 + vis["k"]
+            ok0, _ = ratfun.equal_terms(a0, sym.mk("math.ceil", mink))
+            okb, _ = ratfun.equal_terms(b0, sym.mk("math.floor", maxk) + 1)
+            if not ok0:
+              probs.append("summation does not start at ceil(mink)")
+            if not okb:
+              probs.append("range stops at %r: the series runs up to and including floor(maxk), i.e. stop = floor((n/z - 1)/4) + 1" % (b0,))
+        for kind, val, s, since, v2 in info["body_paths"]:
+          if v2 is not vis:
+            continue
+          r0 = as_poly(head.env.get("res"))
+          r1 = as_poly(s.env.get("res"))
+          okt, dt = ratfun.equal_terms(r1 - r0, term(kh))
+          if not okt:
+            probs.append("series term differs: %s" % dt)
+          if isinstance(node, ast.While):
+            k1 = as_poly(s.env.get("k"))
+            if not (k1 - kh - 1).is_zero():
+              probs.append("k is not advanced by 1")
+      ctx.record(R, f.where, txt[:60], not probs, "; ".join(sorted(set(probs))) or txt)
+  ret = [e for e in w.events if e.kind == "return" and e.node is not None]
+  if ret:
+    res = as_poly(ret[0].state.env.get("res"))
+    cmp_terms(ctx, R, f.where, "p = 1 + (series1 + series2) / 2  [erf form of 2.13.4]", as_poly(ret[0].data["value"]), _c(1) + _td(res, _c(2)), "2.13.4")
+  e = last_assign(w, "t", in_loop=False)
+  cmp_terms(ctx, R, f.where, "t = z / sqrt(2n)", as_poly(e.data["value"]) if e else None, t, "Phi(x) = (1 + erf(x / sqrt 2)) / 2")
+  # ---- RandomWalk: excursion statistics
+  f = repo.func(MOD, "RandomWalk")
+  w = sym.Walker(repo, f)
+  w.run()
+  done = set()
+  for e in w.events:
+    if e.kind == "assign" and e.data["name"] == "obs" and e.state.tags:
+      v = as_poly(e.data["value"])
+      env = e.state.env
+      J = as_poly(env.get("excursions"))
+      if "math.sqrt" in repr(v) and "variant" not in done:
+        done.add("variant")
+        x = as_poly(env.get("x"))
+        tc = as_poly(env.get("total_cnt"))
+        want = _td(sym.mk("abs", J - sym.mk("idx", tc, x)), sqrt(J * 2 * (sym.mk("abs", x) * 4 - 2)))
+        cmp_terms(ctx, R, f.where, "variant: |J - xi(x)| / sqrt(2J(4|x| - 2))", v, want, "2.15.4")
+      elif "math.sqrt" not in repr(v) and "excursion" not in done:
+        done.add("excursion")
+        vv = as_poly(env.get("v"))
+        pi = as_poly(env.get("pi"))
+        mc = P("param", "max_cnt")
+        bv = Atom("bv", "s4")
+        rng = sym.mk("range", mc + 1)
+        k_ = Poly.atom(bv)
+        elt = _td((sym.mk("idx", vv, k_) - J * sym.mk("idx", pi, k_)) ** 2, J * sym.mk("idx", pi, k_))
+        want = sym.mk("sum", Poly.atom(Atom("map", elt, bv, rng)))
+        cmp_terms(ctx, R, f.where, "excursions: chi2 = sum_k (v_k - J pi_k)^2 / (J pi_k)", v, want, "2.14.4")
+  for e in w.events:
+    if e.kind == "assign" and e.data["name"] in ("max_dist_forward", "max_dist_backward"):
+      env = e.state.env
+      mx, mn, s_ = as_poly(env.get("maxs")), as_poly(env.get("mins")), as_poly(env.get("s"))
+      want = sym.mk("max", mx, -mn) if e.data["name"].endswith("forward") else sym.mk("max", mx - s_, s_ - mn)
+      cmp_terms(ctx, R, f.where, e.data["name"], as_poly(e.data["value"]), want, "2.13.4 z = max |S_k| resp. max |S_n - S_k|")
